@@ -22,6 +22,7 @@ type Gen struct {
 	SSAPkgs  map[string]*ssa.Package // by package name
 	CS       *ContractSet
 	tagTys   map[string]types.Type // struct types mentioned in elemOf/tagged (see idtags.go)
+	tagPures map[string]bool       // spec functions that (transitively) mention allocation tags
 	Pures    map[string]*PureFn
 	strLits  map[string]string
 	strOrder []string
